@@ -85,7 +85,7 @@ Cc compile_once(std::string const& tag, std::string const& body, std::string& fi
     std::fputs(body.c_str(), f);
     std::fputs("\n", f);
     std::fclose(f);
-    auto const log = run(std::string("g++ -std=c++2b -fsyntax-only -w -I") + MC_REPO_INCLUDE + " -I" + MC_VERIF_DIR + "/harness " + file, rc);
+    auto const log = run(std::string("LC_ALL=C g++ -std=c++2b -fsyntax-only -w -I") + MC_REPO_INCLUDE + " -I" + MC_VERIF_DIR + "/harness " + file, rc);
     std::remove(file.c_str());
     if (rc == 0) { return Cc::ok; }
     auto const pos = log.find(" error: ");
